@@ -51,6 +51,10 @@ def lookup(vnode, path, tid=1):
 
 
 def undecoded(kind, tid=1):
+    if kind == 'T':
+        return E.ev('TRACE_DATA_NEWTHREAD', 0, (0x9500, 0x96, 0, 0), tid=tid)   # kernel trace-data record with non-text bytes
+    if kind == 'D':
+        return E.ev('VFS_LOOKUP_DONE', 0, tid=tid, data=B.le(0x77, 8) + b'/done'.ljust(24, b'\0'))
     if kind == 'K':
         return E.ev('MACH_vm_page_release', 0, (1, 2, 3, 4), tid=tid)
     if kind == 'U':
@@ -75,12 +79,16 @@ def windows(name, ws, pick):
         e = (e[0], e[1], 0, e[3])   # kern return 0 so that the fault type and the nested records are read
     s, e = D.in_domain(name, 'se', s, e, pick)
     S, En = dev(name, 1, s), dev(name, 2, e)
-    gen = [S] + lookup(0x71, '/a') + lookup(0x72, '/bbbbbbbbbbbbbbbbbbbbbbbb/cccccccccccccccccccccccccccccccc/dd') + [undecoded('K'), En]
+    gen = [S] + lookup(0x71, '/' + 'a' * 23) + lookup(0x72, '/' + 'b' * 24 + '/' + 'c' * 32 + '/' + 'd' * 29) + [undecoded('K'), En]   # 24 and 88 bytes: both fill their records exactly
     yield 'generic', gen
     if name in FAMILY['dyld']:
         g = E.ev('TRACE_STRING_GLOBAL', 3, data=B.global_string_chunks(0, STR_ID, '/usr/lib/x')[0][0])
         g0 = E.ev('TRACE_STRING_GLOBAL', 3, data=B.global_string_chunks(0, STR_ID, '')[0][0])
         yield 'dyld-announced', [g, S, En]
+        # the announcement split over two records with another kernel trace record of the thread in between
+        ch = B.global_string_chunks(0, STR_ID, '/usr/lib/a-long-library-name.dylib')
+        yield 'dyld-announced-split', [E.ev('TRACE_STRING_GLOBAL', ch[0][1], data=ch[0][0]), undecoded('T'),
+                                      E.ev('TRACE_STRING_GLOBAL', ch[1][1], data=ch[1][0]), S, En]
         yield 'dyld-announced-empty', [g0, S, En]
     if name in FAMILY['tstr']:
         dn = FAMILY['tstr'][name]
@@ -120,7 +128,7 @@ def variants(label, win):
     if label == 'generic':
         for i in range(n):
             yield ('dup', i), win[:i + 1] + [win[i]] + win[i + 1:]
-        for kind in ('K', 'U', 'W'):
+        for kind in ('K', 'U', 'W', 'T', 'D'):
             for i in range(n + 1):
                 yield ('ins', kind, i), win[:i] + [undecoded(kind)] + win[i:]
 
@@ -181,11 +189,11 @@ class C07(Check):
     pid = 'C07'
     level = 'fault_enumeration'
     rule = ('for each registered decoder (frozen table mc/domains.json; enum-valued words take declared members, text records '
-            'carry valid UTF-8): a generic full-context window [START, 1-record lookup, 3-record lookup, undecoded record, END] '
+            'carry valid UTF-8): a generic full-context window [START, 1-record lookup, 3-record lookup (both filling their records exactly), undecoded record, END] '
             'and family-specific windows (dyld string announcement present/empty, DATA+STRING pairs, page fault with every '
             'ordered pair of nested real-fault kinds incl. the undecoded one, sampler windows x flag sets, launch window) x word '
             'sets {junk, failing END, zeros, all-ones, small} (quick: junk, fail, zeros) x every subset of the window dropped '
-            '(<=2^9), every single duplication, every insertion of one undecoded/unrelated record at every position, lone '
+            '(<=2^9), every single duplication, every insertion of one undecoded/unrelated/kernel-trace-data/look-alike record at every position, lone '
             'NONE/ALL, windows with 3 and 6 lookups with every dropped prefix; every enum member in the zero-omission window (thorough: the whole fault enumeration for 4 different members of every enum-valued word). '
             'Oracle: feed_generator consumes the history and str() of every emitted trace returns. non-trivial = at least one '
             'event of the window was dropped, duplicated or inserted. Distinct by construction.')
